@@ -55,7 +55,7 @@ class ElementwiseTensorProduct(nn.Module):
 
         irreps_in1, irreps_in2 = _align_two_irreps(irreps_in1, irreps_in2)
 
-        paths = {}
+        paths = []
         irreps_out = []
         for (mul_1, ir_1), slice_1, (_, ir_2), slice_2 in zip(
             irreps_in1, irreps_in1.slices(), irreps_in2, irreps_in2.slices()
@@ -71,8 +71,13 @@ class ElementwiseTensorProduct(nn.Module):
                 else:
                     raise ValueError(f"irrep_normalization={irrep_normalization} not supported")
                 self.register_buffer(f"cg_{ir_1.l}_{ir_2.l}_{ir_out.l}", cg)
-                paths[(ir_1.l, ir_1.p, ir_2.l, ir_2.p, ir_out.l, ir_out.p)] = Path(
-                    Chunk(mul_1, ir_1.dim, slice_1), Chunk(mul_1, ir_2.dim, slice_2), Chunk(mul_1, ir_out.dim)
+                paths.append(
+                    (
+                        (ir_1.l, ir_1.p, ir_2.l, ir_2.p, ir_out.l, ir_out.p),
+                        Path(
+                            Chunk(mul_1, ir_1.dim, slice_1), Chunk(mul_1, ir_2.dim, slice_2), Chunk(mul_1, ir_out.dim)
+                        ),
+                    )
                 )
                 irreps_out.append((mul_1, ir_out))
         self.paths = paths
@@ -93,7 +98,7 @@ class ElementwiseTensorProduct(nn.Module):
             (mul_1, input_dim1, slice_1),
             (mul_2, input_dim2, slice_2),
             (output_mul, output_dim, _),
-        ) in self.paths.items():
+        ) in self.paths:
             x1 = input1[..., slice_1].reshape(
                 leading_shape
                 + (
